@@ -360,6 +360,22 @@ def facts():
     for rel, s in rust_files("src/ffi"):
         ffi += re.findall(r'pub\s+(?:unsafe\s+)?extern\s+""\s+fn\s+(\w+)', s)
     f["ffi_exports"] = sorted(set(ffi))
+    # for every exported function: pointer parameters for which the body shows no NULL handling
+    unchecked = []
+    nparams = 0
+    for rel, s in rust_files("src/ffi"):
+        for m in re.finditer(r'pub\s+(?:unsafe\s+)?extern\s+""\s+fn\s+(\w+)\s*\(([^)]*)\)', s):
+            name, params = m.group(1), m.group(2)
+            body = next((b for n, b, _ in functions(s[m.start():]) if n == name), "")
+            for pm in re.finditer(r"(\w+)\s*:\s*\*(?:mut|const)\s+", params):
+                pn = pm.group(1)
+                nparams += 1
+                pats = [r"\b%s\s*\.\s*is_null\s*\(" % pn, r"\b%s\s*\.\s*as_ref\s*\(" % pn, r"\b%s\s*\.\s*as_mut\s*\(" % pn,
+                        r"c_str_to_str\s*\(\s*%s\b" % pn, r"\(\s*%s\s*,\s*\w+\s*\)" % pn, r"from_raw_parts\w*\s*\(\s*%s\b" % pn]
+                if not any(re.search(p_, body) for p_ in pats):
+                    unchecked.append("%s(%s)" % (name, pn))
+    f["ffi_unchecked_pointer_params"] = sorted(unchecked)
+    f["ffi_pointer_param_count"] = ["%d" % nparams]
     return f
 
 
@@ -374,7 +390,7 @@ GROUPS = {
             "flow_generator_store", "flow_generator_resume"],
     "C01": ["binop_table"],
     "C13": ["constants"],
-    "C17": ["ffi_exports"],
+    "C17": ["ffi_exports", "ffi_unchecked_pointer_params", "ffi_pointer_param_count"],
     "C03": ["type_syntax_uses"],
     "C05": ["parser_guarded", "parser_unguarded_cycles", "parser_limits"],
     "C19": ["prologue_eval", "prologue_prepare", "prologue_resume", "capi_entry_calls"],
